@@ -1,0 +1,14 @@
+//go:build !verif
+
+package plenccodec
+
+const (
+	VerifYieldRegistryLoaded = iota
+	VerifYieldBeforeStore
+	VerifYieldStructField
+	VerifYieldStructFinish
+	VerifYieldInternMiss
+	VerifYieldMapScratch
+)
+
+func verifYield(point int) {}
